@@ -476,7 +476,7 @@ void sim_pfx_cb(struct pfx_table *t, const struct pfx_record rec, const bool add
 	if (!cb || !cb->enabled_p || t != s->pfxt)
 		return;
 	cb->n_pfx_cb++;
-	if (s->ex.open)
+	if (s->ex.open && !s->cb_count_paused)
 		s->ex.cb_pfx++;
 	if (s->cfg.stop_in_callback && rec.socket == s->sock && pthread_equal(pthread_self(), s->sock->thread_id) &&
 	    ++s->own_callbacks == s->cfg.stop_in_callback && !s->woke_driver_from_callback) {
@@ -532,7 +532,7 @@ void sim_spki_cb(struct spki_table *t, const struct spki_record rec, const bool 
 	if (!cb || !cb->enabled_k || t != s->spkit)
 		return;
 	cb->n_spki_cb++;
-	if (s->ex.open)
+	if (s->ex.open && !s->cb_count_paused)
 		s->ex.cb_spki++;
 	memset(&k, 0, sizeof(k));
 	k.asn = rec.asn;
